@@ -266,11 +266,30 @@ pub fn run_property(
         let n = ((fam.budget(tier) as f64) * opts.budget_scale).ceil().max(1.0) as u64;
         let ft0 = Instant::now();
         let next = AtomicU64::new(0);
-        let results: Mutex<Vec<(u64, u64, Result<RunOutcome, String>)>> = Mutex::new(Vec::new());
+        // every worker folds its runs into a local aggregate (sums, sets, maps: all order
+        // independent), so memory does not grow with the number of runs
+        #[derive(Default)]
+        struct Local {
+            runs: u64,
+            nontrivial: u64,
+            events: u64,
+            sim_ms: u64,
+            oracle_evals: u64,
+            shapes: BTreeSet<u64>,
+            states: BTreeSet<u64>,
+            faults: BTreeMap<String, u64>,
+            probes: BTreeMap<String, u64>,
+            sut_panics: BTreeMap<String, u64>,
+            other: BTreeMap<String, u64>,
+            samples: Vec<(u64, u64, serde_json::Value)>,
+            found: Vec<(u64, u64, Violation)>,
+            errors: Vec<String>,
+        }
+        let merged: Mutex<Local> = Mutex::new(Local::default());
         std::thread::scope(|s| {
             for _ in 0..opts.threads {
                 s.spawn(|| {
-                    let mut local = Vec::new();
+                    let mut l = Local::default();
                     loop {
                         let i = next.fetch_add(1, Ordering::Relaxed);
                         if i >= n {
@@ -278,68 +297,109 @@ pub fn run_property(
                         }
                         let seed = run_seed(opts.base_seed, fam.family(), i);
                         let mut ch = Chooser::generate(seed);
-                        let mut r = run_once(*fam, &mut ch, tier);
-                        if let Ok(o) = &mut r {
-                            // keep memory bounded: samples only for the first few indices
-                            if i >= 3 {
-                                o.sample = None;
+                        match run_once(*fam, &mut ch, tier) {
+                            Err(e) => l.errors.push(format!("family={} index={} seed={}: {}", fam.family(), i, seed, e)),
+                            Ok(o) => {
+                                l.runs += 1;
+                                l.events += o.events;
+                                l.sim_ms += (o.sim_seconds * 1000.0) as u64;
+                                l.oracle_evals += o.oracle_evals;
+                                if o.nontrivial {
+                                    l.nontrivial += 1;
+                                    l.shapes.insert(o.shape);
+                                }
+                                for st in o.states {
+                                    l.states.insert(st);
+                                }
+                                for (k, v) in o.faults {
+                                    *l.faults.entry(k).or_insert(0) += v;
+                                }
+                                for (k, v) in o.probes {
+                                    *l.probes.entry(k).or_insert(0) += v;
+                                }
+                                for p in o.sut_panics {
+                                    *l.sut_panics.entry(truncate(&p, 160)).or_insert(0) += 1;
+                                }
+                                if i < 3 {
+                                    if let Some(sm) = o.sample {
+                                        l.samples.push((i, seed, sm));
+                                    }
+                                }
+                                for v in o.violations {
+                                    if v.property == property {
+                                        // bounded: keep at most a few thousand per worker
+                                        if l.found.len() < 20_000 {
+                                            l.found.push((i, seed, v));
+                                        } else {
+                                            *l.other.entry(format!("(further) {}", v.oracle)).or_insert(0) += 1;
+                                        }
+                                    } else {
+                                        *l.other.entry(v.oracle.clone()).or_insert(0) += 1;
+                                    }
+                                }
                             }
                         }
-                        local.push((i, seed, r));
-                        if local.len() >= 256 {
-                            results.lock().unwrap().append(&mut local);
-                        }
                     }
-                    results.lock().unwrap().append(&mut local);
+                    let mut g = merged.lock().unwrap();
+                    g.runs += l.runs;
+                    g.nontrivial += l.nontrivial;
+                    g.events += l.events;
+                    g.sim_ms += l.sim_ms;
+                    g.oracle_evals += l.oracle_evals;
+                    g.shapes.extend(l.shapes);
+                    g.states.extend(l.states);
+                    for (k, v) in l.faults {
+                        *g.faults.entry(k).or_insert(0) += v;
+                    }
+                    for (k, v) in l.probes {
+                        *g.probes.entry(k).or_insert(0) += v;
+                    }
+                    for (k, v) in l.sut_panics {
+                        *g.sut_panics.entry(k).or_insert(0) += v;
+                    }
+                    for (k, v) in l.other {
+                        *g.other.entry(k).or_insert(0) += v;
+                    }
+                    g.samples.extend(l.samples);
+                    g.found.extend(l.found);
+                    g.errors.extend(l.errors);
                 });
             }
         });
-        let mut results = results.into_inner().unwrap();
-        results.sort_by_key(|r| r.0);
-        let mut f_nontrivial = 0u64;
-        let mut f_shapes = BTreeSet::new();
-        let mut f_probes: BTreeMap<String, u64> = BTreeMap::new();
-        for (i, seed, r) in results {
-            match r {
-                Err(e) => harness_errors.push(format!("family={} index={} seed={}: {}", fam.family(), i, seed, e)),
-                Ok(o) => {
-                    agg.runs += 1;
-                    agg.events += o.events;
-                    agg.sim_seconds += o.sim_seconds;
-                    agg.oracle_evals += o.oracle_evals;
-                    if o.nontrivial {
-                        agg.nontrivial += 1;
-                        f_nontrivial += 1;
-                        agg.shapes.insert(mix(&[fi as u64, o.shape]));
-                        f_shapes.insert(o.shape);
-                    }
-                    for s in o.states {
-                        agg.states.insert(s);
-                    }
-                    for (k, v) in o.faults {
-                        *agg.faults.entry(k).or_insert(0) += v;
-                    }
-                    for (k, v) in o.probes {
-                        *f_probes.entry(k.clone()).or_insert(0) += v;
-                        *agg.probes.entry(k).or_insert(0) += v;
-                    }
-                    for p in o.sut_panics {
-                        *agg.sut_panics.entry(truncate(&p, 160)).or_insert(0) += 1;
-                    }
-                    if let Some(s) = o.sample {
-                        if agg.samples.len() < 3 * families.len().max(1) {
-                            agg.samples.push(json!({"family": fam.family(), "run_index": i, "seed": seed, "case": s}));
-                        }
-                    }
-                    for v in o.violations {
-                        if v.property == property {
-                            found.push(Found { family_idx: fi, index: i, seed, v });
-                        } else {
-                            *agg.other_property_violations.entry(v.oracle.clone()).or_insert(0) += 1;
-                        }
-                    }
-                }
-            }
+        let mut m = merged.into_inner().unwrap();
+        m.samples.sort_by_key(|x| x.0);
+        m.found.sort_by(|a, b| (a.0, &a.2.oracle, &a.2.key).cmp(&(b.0, &b.2.oracle, &b.2.key)));
+        m.errors.sort();
+        harness_errors.extend(m.errors);
+        agg.runs += m.runs;
+        agg.events += m.events;
+        agg.sim_seconds += m.sim_ms as f64 / 1000.0;
+        agg.oracle_evals += m.oracle_evals;
+        agg.nontrivial += m.nontrivial;
+        let f_nontrivial = m.nontrivial;
+        let f_shapes = m.shapes;
+        for sh in &f_shapes {
+            agg.shapes.insert(mix(&[fi as u64, *sh]));
+        }
+        agg.states.extend(m.states);
+        for (k, v) in m.faults {
+            *agg.faults.entry(k).or_insert(0) += v;
+        }
+        let f_probes = m.probes;
+        for (k, v) in &f_probes {
+            *agg.probes.entry(k.clone()).or_insert(0) += *v;
+        }
+        for (k, v) in m.sut_panics {
+            *agg.sut_panics.entry(k).or_insert(0) += v;
+        }
+        for (k, v) in m.other {
+            *agg.other_property_violations.entry(k).or_insert(0) += v;
+        }
+        for (i, seed, sm) in m.samples {
+            agg.samples.push(json!({"family": fam.family(), "run_index": i, "seed": seed, "case": sm}));
+        }
+        for (i, seed, v) in m.found {
+            found.push(Found { family_idx: fi, index: i, seed, v });
         }
         for v in fam.batch_oracle(&f_probes, n) {
             if v.property == property {
